@@ -25,6 +25,8 @@ class Opaque:
     def make(self):
         import decimal
 
+        if 12 <= self.tag < 12 + len(FOREIGN_KEY_OBJECTS):
+            return FOREIGN_KEY_OBJECTS[self.tag - 12]()
         return [
             object(), set(), 1j, (lambda: 0), frozenset({1}), math, range(3), decimal.Decimal(1),
             type, Ellipsis, NotImplemented, memoryview(b"ab"),
@@ -32,6 +34,32 @@ class Opaque:
 
     def __repr__(self):
         return f"Opaque({self.tag})"
+
+
+def _foreign_key_objects():
+    """objects that *look like* keys without being ed25519 keys (tags 12..): keys of other algorithms from the same crypto library, and stand-ins that
+    merely offer the same methods.  For the model they are opaque objects like any other: not a key."""
+    from cryptography.hazmat.primitives.asymmetric import ec, ed448, x25519
+
+    class Duck:
+        def __init__(self, private):
+            self.private = private
+        def sign(self, data): return b"\x00" * 64
+        def verify(self, sig, data): return None
+        def public_key(self): return Duck(False)
+        def private_bytes(self, *a, **k): return b"\x01" * 32
+        def public_bytes(self, *a, **k): return b"\x02" * 32
+        def private_bytes_raw(self): return b"\x01" * 32
+        def public_bytes_raw(self): return b"\x02" * 32
+
+    return [lambda: ed448.Ed448PrivateKey.generate(), lambda: ed448.Ed448PrivateKey.generate().public_key(),
+            lambda: x25519.X25519PrivateKey.generate(), lambda: x25519.X25519PrivateKey.generate().public_key(),
+            lambda: ec.generate_private_key(ec.SECP256R1()), lambda: ec.generate_private_key(ec.SECP256R1()).public_key(),
+            lambda: Duck(True), lambda: Duck(False)]
+
+
+FOREIGN_KEY_OBJECTS = _foreign_key_objects()
+FOREIGN_KEY_TAGS = list(range(12, 12 + len(FOREIGN_KEY_OBJECTS)))
 
 
 class KeyObj:
@@ -84,7 +112,10 @@ def enc(v, top: bool = True) -> str:
         out = ["{ "]
         for k, x in v.items():
             if not isinstance(k, str):
-                raise TypeError("non-str dict key not representable")
+                # the model's objects are indexed by strings; an in-memory dict indexed by anything else is shown to it as the same dict with
+                # that index replaced by a string that no validator takes for a key (only generated for unsigned signature maps, where the
+                # library treats every index that is not a hex key alike)
+                k = "\x00index:" + type(k).__name__ + ":" + repr(k)
             out.append("s" + codes(k) + " " + enc(x, False) + " ")
         out.append("}")
         return "".join(out)
